@@ -130,6 +130,10 @@ struct world {
     std::vector<disp> host_disp;      // per host; missing = accept
     std::vector<int> host_resolve;    // per host: 1 ok, 0 fail, 2 blackhole
     int nep_per_host = 1;
+    // crash points: the write with this id fails after `wfault_deliver` of its bytes reached the broker
+    // (-1 = all); the connection is reset once `rfault_after` bytes in total have been read by the client
+    int wfault_at = 0; long wfault_deliver = 0; std::string wfault_ec = "reset";
+    long rfault_after = 0; long rbytes_total = 0;
 
     // state
     std::vector<std::shared_ptr<stream_state>> streams;
@@ -157,6 +161,7 @@ struct world {
         next_op = 1; next_sid = 1; next_cid = 1; next_wid = 1; next_attempt = 1;
         auto_resolve = auto_connect = auto_write = auto_deliver = auto_shutdown = true;
         chunk = 0; host_disp.clear(); host_resolve.clear(); nep_per_host = 1;
+        wfault_at = 0; wfault_deliver = 0; wfault_ec = "reset"; rfault_after = 0; rbytes_total = 0;
         seq = 0;
     }
 
@@ -223,6 +228,9 @@ struct world {
         size_t n = std::min(s.rd->cap, c->b2c.size());
         if (max_bytes) n = std::min(n, max_bytes);
         else if (chunk) n = std::min(n, chunk);
+        bool rf = false;
+        if (rfault_after > 0 && rbytes_total + (long) n >= rfault_after) { n = (size_t) std::max<long>(1, rfault_after - rbytes_total); rf = true; }
+        rbytes_total += (long) n;
         size_t off = 0;
         for (auto& b : s.rd->bufs) {
             size_t k = std::min(b.size(), n - off);
@@ -231,6 +239,7 @@ struct world {
         }
         c->b2c.erase(0, n);
         finish_read(s, {}, n);
+        if (rf) { rfault_after = 0; jev("fault").i("c", c->id).str("ec", "reset").str("on", "rbytes"); fault(c->id, asio::error::connection_reset, true, true); }
     }
     void finish_read(stream_state& s, error_code ec, size_t n) {
         auto r = std::move(*s.rd); s.rd.reset();
@@ -515,6 +524,17 @@ public:
                 if (!s.connected || !c) { w.finish_write(s, asio::error::not_connected); return; }
                 if (c->dead) { w.finish_write(s, c->dead_ec == asio::error::eof ? error_code(asio::error::broken_pipe) : c->dead_ec); return; }
                 if (c->broker_closed) { if (w.auto_write) w.finish_write(s, asio::error::broken_pipe); return; }
+                if (w.wfault_at == wid) {
+                    w.wfault_at = 0;
+                    jev("fault").i("c", c->id).str("ec", w.wfault_ec).str("on", "write");
+                    w.deliver_write(s, w.wfault_deliver < 0 ? SIZE_MAX : (size_t) w.wfault_deliver);
+                    auto ec = ec_from(w.wfault_ec);
+                    c->dead = true; c->dead_ec = ec; c->b2c.clear();
+                    w.conn_end(*c, "fault");
+                    w.finish_write(s, ec);
+                    if (s.rd) w.finish_read(s, ec, 0);
+                    return;
+                }
                 if (w.auto_write) {
                     // completion is queued BEFORE the broker reacts, as on a real socket
                     auto h = std::move(*s.wr); s.wr.reset();
